@@ -714,6 +714,14 @@ int runner_main(int argc, char **argv, const Scenario &sc)
 	if (sc.worker_init)
 		sc.worker_init(g_tier);
 
+	if (opt.extra.count("dump-seed"))
+	{
+		uint64_t sd = strtoull(opt.extra["dump-seed"].c_str(), NULL, 10);
+		Plan p = sc.generate(sd, g_tier); p.seed = sd; p.scenario = sc.name;
+		if (p.property.empty()) p.property = opt.prop;
+		printf("%s", p.to_text().c_str());
+		return 0;
+	}
 	// ---------------------------------------------------------------- replay mode
 	if (!opt.replay.empty())
 	{
